@@ -75,6 +75,26 @@ func (p *AP) ruleAccepts(n, k, v string) bool {
 	return false
 }
 
+// sanitiserMade: a value only the sanitiser itself writes.
+func sanitiserMade(a Attr) bool {
+	switch a.K {
+	case "rel":
+		for t := range relToks(a.V) {
+			if t != "nofollow" && t != "noreferrer" && t != "noopener" {
+				return false
+			}
+		}
+		return true
+	case "target":
+		return a.V == "_blank"
+	case "crossorigin":
+		return a.V == "anonymous"
+	case "sandbox":
+		return a.V == ""
+	}
+	return false
+}
+
 // emittedTags pairs every tag the real code wrote with the attributes it read for it.
 type emittedTag struct {
 	N      string
@@ -152,8 +172,9 @@ func oracleC02(x *Exec) []Finding {
 					ok = true
 				}
 			}
-			if !hasSame && p.forced(et.N, a) {
-				ok = true
+			_ = hasSame
+			if p.forced(et.N, a) && sanitiserMade(a) {
+				ok = true // written by the sanitiser itself
 			}
 			if !ok {
 				fs = append(fs, Finding{"C02", "attr:" + et.N + ":" + a.K, fmt.Sprintf("<%s %s=%q> emitted but no rule of the policy accepts it (input attributes %v)", et.N, a.K, a.V, et.Before)})
